@@ -25,6 +25,9 @@ class Slicer:
         self.out = []                 # (text, repo_line)
         self.n_effects = 0
         self.n_guards = 0
+        self.n_mixed = 0              # conditions that mention the flag but are not a pure test of it
+        self.ret = "return Err(());"  # what an early return looks like in the slice
+        self.loop_may_exit = True     # `loop {}`: add a nondeterministic break (sandbox slices only)
 
     # -- helpers -----------------------------------------------------------------------
     def text(self, a, b):
@@ -83,16 +86,23 @@ class Slicer:
         seg = self.src.text[base:self.toks[b - 1].end]
         for m in self.effect_rx.finditer(seg):
             ln = self.src.line_of(base + m.start())
-            what = re.sub(r"\s+", "", m.group(0))[:40]
-            self.out.append(("%seffect(%s, \"%s\");" % (indent, self.flag_name, what.replace('"', "'")), ln))
+            self.out.append((indent + self.render_effect(m), ln))
             self.n_effects += 1
+
+    def render_effect(self, m):
+        what = re.sub(r"\s+", "", m.group(0))[:40]
+        return "effect(%s, \"%s\");" % (self.flag_name, what.replace('"', "'"))
+
+    def _unused(self):
+        if False:
+            pass
 
     def maybe_return(self, a, b, indent):
         """`?` in an opaque expression: the statement may return early"""
         for k in range(a, b):
             t = self.toks[k]
             if t.kind == "punct" and t.text == "?":
-                self.emit("%sif nondet() { return Err(()); }" % indent, k)
+                self.emit("%sif nondet() { %s }" % (indent, self.ret), k)
                 return
 
     def cond(self, a, b):
@@ -101,6 +111,8 @@ class Slicer:
         if m:
             self.n_guards += 1
             return ("!" if m.group(1) else "") + self.flag_name
+        if self.flag_any.search(txt):
+            self.n_mixed += 1
         return "nondet()"
 
     # -- statements --------------------------------------------------------------------
@@ -122,7 +134,7 @@ class Slicer:
                 e = self.find0(k, b, lambda u: u.text == ";")
                 e = b if e is None else e
                 self.inner(k + 1, e, indent)
-                self.emit("%sreturn Err(());" % indent, k)
+                self.emit("%s%s" % (indent, self.ret), k)
                 k = e + 1
                 continue
             if t.kind == "ident" and t.text in ("break", "continue"):
@@ -227,12 +239,58 @@ class Slicer:
             c = self.close(els + 1)
             self.emit("%sif nondet() {" % indent, els)
             self.block(els + 2, c, indent + "    ")
-            self.emit("%s    return Err(());" % indent, c)
+            self.emit("%s    %s" % (indent, self.ret), c)
             self.emit("%s}" % indent, c)
         return e + 1
 
     def _belongs_to_if(self, s, j):
         return self.toks[s].kind == "ident" and self.toks[s].text == "if"
+
+    def match_arms(self, open_, c):
+        """[(kind, body_start, body_end, arrow_index, pattern_start)] of the match whose braces are open_..c"""
+        arms = []
+        j = open_ + 1
+        while j < c:
+            arrow = None
+            m = j
+            while m < c:
+                u = self.toks[m]
+                if u.kind == "punct" and u.text in "([{":
+                    m = self.close(m) + 1
+                    continue
+                if u.kind == "punct" and u.text == "=" and m + 1 < c and self.toks[m + 1].text == ">" \
+                        and self.toks[m + 1].start == u.end:
+                    arrow = m
+                    break
+                m += 1
+            if arrow is None:
+                break
+            # a guard `if COND` in the pattern may test the flag: conservatively ignored (nondet)
+            pat = j
+            bs = arrow + 2
+            if bs < c and self.toks[bs].text == "{":
+                be = self.close(bs)
+                arms.append(("block", bs + 1, be, arrow, pat))
+                j = be + 1
+            else:
+                e = self.find0(bs, c, lambda u: u.text == ",")
+                e = c if e is None else e
+                arms.append(("expr", bs, e, arrow, pat))
+                j = e
+            if j < c and self.toks[j].text == ",":
+                j += 1
+        return arms
+
+    def emit_arms(self, arms, k, indent):
+        self.emit("%smatch nondet_u8() {" % indent, k)
+        for i, (kind, a2, b2, arrow, _p) in enumerate(arms):
+            pat = "_" if i == len(arms) - 1 else str(i)
+            self.emit("%s    %s => {" % (indent, pat), arrow)
+            self.block(a2, b2, indent + "        ")
+            self.emit("%s    }" % indent, b2 - 1 if b2 > 0 else arrow)
+        if not arms:
+            self.emit("%s    _ => {}" % indent, k)
+        self.emit("%s}" % indent, k)
 
     def control(self, k, b, indent):
         t = self.toks[k]
@@ -268,51 +326,8 @@ class Slicer:
             open_ = self.find0(k + 1, b, lambda u: u.text == "{")
             c = self.close(open_)
             self.inner(k + 1, open_, indent)
-            # arms
-            arms = []
-            j = open_ + 1
-            while j < c:
-                # pattern up to `=>`
-                arrow = None
-                d = 0
-                m = j
-                while m < c:
-                    u = self.toks[m]
-                    if u.kind == "punct" and u.text in "([{":
-                        m = self.close(m) + 1
-                        continue
-                    if u.kind == "punct" and u.text == "=" and m + 1 < c and self.toks[m + 1].text == ">" \
-                            and self.toks[m + 1].start == u.end:
-                        arrow = m
-                        break
-                    m += 1
-                if arrow is None:
-                    break
-                # a guard `if COND` in the pattern may test the flag: conservatively ignored (nondet)
-                bs = arrow + 2
-                if bs < c and self.toks[bs].text == "{":
-                    be = self.close(bs)
-                    arms.append(("block", bs + 1, be, arrow))
-                    j = be + 1
-                else:
-                    e = self.find0(bs, c, lambda u: u.text == ",")
-                    e = c if e is None else e
-                    arms.append(("expr", bs, e, arrow))
-                    j = e
-                if j < c and self.toks[j].text == ",":
-                    j += 1
-            self.emit("%smatch nondet_u8() {" % indent, k)
-            for i, (kind, a2, b2, arrow) in enumerate(arms):
-                pat = "_" if i == len(arms) - 1 else str(i)
-                self.emit("%s    %s => {" % (indent, pat), arrow)
-                if kind == "block":
-                    self.block(a2, b2, indent + "        ")
-                else:
-                    self.block(a2, b2, indent + "        ")
-                self.emit("%s    }" % indent, b2 - 1 if b2 > 0 else arrow)
-            if not arms:
-                self.emit("%s    _ => {}" % indent, k)
-            self.emit("%s}" % indent, c)
+            arms = self.match_arms(open_, c)
+            self.emit_arms(arms, k, indent)
             return c + 1
         if t.text in ("while", "for"):
             open_ = self.find0(k + 1, b, lambda u: u.text == "{")
@@ -340,7 +355,8 @@ class Slicer:
             open_ = k + 1
             c = self.close(open_)
             self.emit("%sloop {" % indent, k)
-            self.emit("%s    if nondet() { break; }" % indent, k)
+            if self.loop_may_exit:
+                self.emit("%s    if nondet() { break; }" % indent, k)
             self.block(open_ + 1, c, indent + "    ")
             self.emit("%s}" % indent, c)
             return c + 1
